@@ -796,6 +796,10 @@ Proof.
     destruct (do_start s h cb path interval fail); auto.
   - destruct (valid s h && negb (h_closed (geth s h))); cbn [fst]; auto. apply SI_do_stop; auto.
   - destruct (valid s h && negb (h_closing (geth s h))); cbn [fst]; auto. apply SI_do_close; auto.
+  - cbn [fst]. apply (do_walk_inv SI).
+    + intros s0 h0 _ H0. apply SI_do_close; auto.
+    + intros s0 l H0. eapply SI_same; [| |exact H0]; reflexivity.
+    + exact H.
 Qed.
 
 Lemma SI_apis os : forall s, SI s -> SI (fst (apis s os)).
@@ -992,26 +996,24 @@ Qed.
 
 (* an invariant that the four ingredients of the timer pass keep is kept by the pass *)
 Lemma fire_ready_inv (P : st -> Prop) fx beh :
+  (forall s l, P s -> P (set_ut s l)) ->
   (forall s c, P s -> P (timer_fire fx s c)) ->
   (forall s os, P s -> P (fst (apis s os))) ->
   forall l s cnt, P s -> P (fst (fst (fire_ready fx beh l s cnt))).
 Proof.
-  intros Pf Pa. induction l as [|[c|id] l IH]; intros s cnt H; cbn [fire_ready]; auto.
-  pose proof (Pa s (beh cnt) H) as X. destruct (apis s (beh cnt)) as [s1 e1]. cbn [fst] in X.
+  intros Pu Pf Pa. induction l as [|[c|id] l IH]; intros s cnt H; cbn [fire_ready]; auto.
+  destruct (ut_has s id); [|apply IH; exact H].
+  assert (H0 : P (ut_remove s id)) by (apply Pu; exact H).
+  pose proof (Pa _ (beh cnt) H0) as X. destruct (apis (ut_remove s id) (beh cnt)) as [s1 e1]. cbn [fst] in X.
   pose proof (IH s1 (S cnt) X) as Y. destruct (fire_ready fx beh l s1 (S cnt)) as [[s2 e2] n2]. exact Y.
 Qed.
 
 Lemma collect_inv (P : st -> Prop) :
   (forall s c, P s -> P (upd_c s c (c_set_timer TReady))) ->
-  (forall s l, P s -> P (set_ut s l)) ->
   forall items s, P s -> P (collect s items).
 Proof.
-  intros Pr Pu items s H. unfold collect.
-  assert (X : forall l s0, P s0 -> P (fold_left (fun s it => match it with
-                                   | RCtx c => upd_c s c (c_set_timer TReady)
-                                   | RUser _ => s end) l s0)).
-  { induction l as [|[c|id] l IH]; intros s0 H0; cbn [fold_left]; auto. }
-  destruct items; [apply X; auto|]. apply Pu. apply X. auto.
+  intros Pr items. unfold collect.
+  induction items as [|[c|id] l IH]; intros s0 H0; cbn [fold_left]; auto.
 Qed.
 
 Lemma run_timers_inv (P : st -> Prop) fx beh :
@@ -1312,3 +1314,23 @@ Lemma w_pass_traces :
     [ERet 0; EStat 0; EIter; EIter; EUser 1; ERet 0; ERet 0; EStat 1; EStat 0; EIter; EIter;
      EFinal UV_EBUSY 1].
 Proof. split; vm_compute; reflexivity. Qed.
+
+(* uv_walk shows the program's handles only: every fs_poll handle that is initialised and not
+   closed, no context timer (they carry UV_HANDLE_INTERNAL) *)
+Lemma walk_sees_only_user_handles s :
+  uv_walk s = map QH (filter (fun h => negb (h_closed (geth s h))) (seq 0 (length (hs s)))) /\
+  (forall c, ~ In (QT c) (uv_walk s)) /\
+  walk_targets s = filter (fun h => negb (h_closed (geth s h))) (seq 0 (length (hs s))).
+Proof.
+  assert (A : forall l, filter (fun it => negb (internal it)) (map QH l) = map QH l).
+  { induction l as [|x l IH]; cbn; [reflexivity|]. rewrite IH. reflexivity. }
+  assert (B : forall l, filter (fun it => negb (internal it)) (map QT l) = []).
+  { induction l as [|x l IH]; cbn; auto. }
+  assert (C : forall l, flat_map (fun it => match it with QH h => [h] | QT _ => [] end) (map QH l) = l).
+  { induction l as [|x l IH]; cbn; [reflexivity|]. rewrite IH. reflexivity. }
+  assert (E : uv_walk s = map QH (filter (fun h => negb (h_closed (geth s h))) (seq 0 (length (hs s))))).
+  { unfold uv_walk, handle_queue. rewrite filter_app, A, B, app_nil_r. reflexivity. }
+  split; [exact E|]. split.
+  - intros c I. rewrite E in I. apply in_map_iff in I. destruct I as (h & X & _). discriminate.
+  - unfold walk_targets. rewrite E. apply C.
+Qed.
